@@ -74,12 +74,12 @@ IDOF = z3.Function("id_of", I, I)  # id(obj) as a boxed value is never needed; i
 
 # ghost: for a list without repeated elements, the position of an element (axiom stated by whoever relies on it:
 # forall j in range. LIST_INDEX(l, l[j]) == j)
-LIST_INDEX = z3.Function("ghost_param_index", I, I, I)
+LIST_INDEX = z3.Function("ghost_index_in", SeqI, I, I)  # a function of the sequence *value*: copies share it
 
 
-def distinct_elements(seq, l):
+def distinct_elements(seq, l=None):
     j = z3.Int("j!dn")
-    return z3.ForAll([j], z3.Implies(z3.And(j >= 0, j < z3.Length(seq)), LIST_INDEX(l, seq[j]) == j), patterns=[seq[j]])
+    return z3.ForAll([j], z3.Implies(z3.And(j >= 0, j < z3.Length(seq)), LIST_INDEX(seq, seq[j]) == j), patterns=[seq[j]])
 
 
 _fresh_counter = itertools.count()
